@@ -24,6 +24,7 @@ def run(ctx):
               ("3", "CVSS:3.1/AV:N/AC:L/PR:N/UI:N/S:U/C:N/I:N/A:N"), ("3", "CVSS:3.0/AV:N/AC:L/PR:N/UI:N/S:C/C:H/I:H/A:H"),
               ("4", "CVSS:4.0/AV:N/AC:L/AT:N/PR:N/UI:N/VC:N/VI:N/VA:N/SC:N/SI:N/SA:N"),
               ("4", "CVSS:4.0/AV:N/AC:L/AT:N/PR:N/UI:N/VC:H/VI:H/VA:H/SC:H/SI:H/SA:H")]
+    items += [("2", s) for s in core.v2_low_family()[:: (1 if ctx.tier == "thorough" else 3)]]
     ctx.count(len(items) * 4)
     ctx.sample({"vector": items[0][1], "options": "sort x minimal"})
     for ver in "234":
